@@ -1,6 +1,8 @@
 package main
 
 import (
+	"strings"
+
 	"verif/harness/common"
 	"verif/harness/interpgen"
 )
@@ -175,5 +177,84 @@ func runC08() {
 		nShapes = 20000
 	}
 	sigShapes(r, buffersOnly, nShapes)
+	runSharing(r)
 	c.Stats.Rule = "800 signature-opcode shapes with a transaction context (tested input at index 0..2, 1..4 outputs, all base hash types incl. SINGLE/NONE with and without ANYONECANPAY/FORKID) (implementation only: caller buffers, tx serialisation and the prevout record compared); provenance x transformation matrix: 17 ways of obtaining two stack items backed by the same data (DUP, 2DUP, 3DUP, OVER, 2OVER, PICK, TUCK, IFDUP, both halves of SPLIT, alt-stack round trips, pushes straight from the script bytes, ROT/SWAP/ROLL of duplicates) x 42 value-transforming opcode snippets x 14 twin values x both eras, in the locking script and in the unlocking script; random chains of 2-3 transformations; every ordered pair of the 42 snippets with the first result retained (plain, duplicated, or parked on the alt stack) while the second runs (quick: a third of the pairs per seed plus all hash x hash pairs); P2SH (saved stack shared with the redeem script); runs with a transaction context. Every snapshot of every stack item after every step is compared with the model (in which values cannot alias), the frame property is stated directly on the snapshots, and the caller-held script and transaction buffers are compared byte for byte before/after. distinct = distinct program; non-trivial = at least one step completed"
+}
+
+// emitLive: the sharing structure of the interpreter's own stacks after every step (which items lie in which
+// backing array, and where) against the heap model's prediction (coq/model/Heap.v).
+func emitLive(p *interpgen.Program) {
+	if p.HasTx {
+		return
+	}
+	obs, msg, trace := interpgen.RunLive(p)
+	c.Tally("sharing/" + strings.SplitN(p.Kind, "/", 2)[0] + "/" + obs)
+	if obs == "panic" {
+		c.Violate("Engine.Execute/panic", msg, p)
+	}
+	c.Case(interpgen.CoqLive(p, obs, trace), map[string]interface{}{"kind": "sharing/" + p.Kind, "program": p}, "L"+key(p), len(trace) > 0)
+}
+
+func runSharing(r *common.Rand) {
+	// every provenance x every transformation, one twin value each (all values in thorough), both eras
+	n := 0
+	for pi, pv := range provenances {
+		for ti, tf := range transforms {
+			for vi, x := range twinValues {
+				n++
+				if !c.Thorough() && vi != (pi+ti+int(c.Seed))%len(twinValues) {
+					continue
+				}
+				fl := uint32(0)
+				if n%2 == 1 {
+					fl = interpgen.FGenesis
+				}
+				emitLive(aliasProgram(pv, tf, x, fl, n%5 == 0))
+			}
+		}
+	}
+	// BIN2NUM shares its operand exactly when the encoding is already minimal; SPLIT at every position; empty items
+	for _, x := range [][]byte{{}, {0x01}, {0x80}, {0x00}, {0x01, 0x80}, {0x01, 0x00}, {0x80, 0x00}, {0x80, 0x80}, {0x00, 0x00}, {0x7f, 0x00, 0x00}, {0x01, 0x00, 0x80}, {0x01, 0x02, 0x03, 0x00, 0x80}} {
+		for _, fl := range []uint32{0, interpgen.FGenesis} {
+			emitLive((&interpgen.Program{Unlock: interpgen.Push(x), Lock: []byte{0x76, 0x81, 0x7c, 0x81, 0x74, 0x75, 0x51}, Flags: fl, Kind: "bin2num"}).Fix())
+			for k := 0; k <= len(x); k++ {
+				emitLive((&interpgen.Program{Unlock: []byte{}, Lock: cat(interpgen.Push(x), []byte{0x76}, interpgen.Push(interpgen.NumEnc(int64(k))), []byte{0x7f, 0x7e, 0x7c, 0x75, 0x51}), Flags: fl, Kind: "split"}).Fix())
+			}
+		}
+	}
+	// chains and generated programs without signature opcodes
+	nGen := 300
+	if c.Thorough() {
+		nGen = 8000
+	}
+	for i := 0; i < nGen; i++ {
+		pv := provenances[r.Intn(len(provenances))]
+		x := twinValues[r.Intn(len(twinValues))]
+		body := pv.code(x)
+		for k := 1 + r.Intn(4); k > 0; k-- {
+			body = cat(body, transforms[r.Intn(len(transforms))].code)
+			if r.Chance(50) {
+				body = cat(body, provenances[r.Intn(len(provenances))].code(x)[len(interpgen.Push(x)):])
+			}
+		}
+		fl := uint32(0)
+		if r.Bool() {
+			fl = interpgen.FGenesis
+		}
+		if r.Chance(30) {
+			emitLive((&interpgen.Program{Unlock: body, Lock: []byte{0x74, 0x75, 0x51}, Flags: fl, Kind: "chain"}).Fix())
+		} else {
+			emitLive((&interpgen.Program{Unlock: []byte{}, Lock: cat(body, []byte{0x74, 0x75, 0x51}), Flags: fl, Kind: "chain"}).Fix())
+		}
+	}
+	for i := 0; i < nGen/4; i++ {
+		p := interpgen.P2SH(r)
+		p.Kind = "p2sh"
+		emitLive(p)
+	}
+	interpgen.ScriptBoundary(func(p *interpgen.Program) {
+		q := *p
+		q.Kind = "boundary"
+		emitLive(&q)
+	})
 }
